@@ -1,3 +1,4 @@
+(* use: util_isa *)
 (* driver of the specification oracle (extracted Isa/Spec.v, Isa/Seq.v, ...) *)
 let isa_case _ line =
   let f = fields line in
@@ -15,5 +16,5 @@ let () =
   let start = if Array.length Sys.argv > 3 then int_of_string Sys.argv.(3) else 0 in
   let h = match cmd with
     | "isa" -> isa_case
-    | _ -> (try List.assoc cmd !extra_commands with Not_found -> failwith ("unknown command " ^ cmd)) in
+    | _ -> failwith ("unknown command " ^ cmd) in
   iter_lines file start h
